@@ -1168,10 +1168,14 @@ class DomainMapping(CanBehaveLikeAVariable[T], ABC):
         sources = sources or {}
         self._yield_when_false_ = yield_when_false
         self._child_._eval_parent_ = self
-        if self._id_ in sources:
-            yield sources
-            return
         is_condition = self._is_in_condition_position_
+        if self._id_ in sources:
+            # already bound (the same expression object was evaluated before, e.g. as an operand): as a condition, it is
+            # the bound value that is interpreted as a boolean.
+            self._is_false_ = is_condition and (bool(sources[self._id_].value) == self._invert_)
+            if self._yield_when_false_ or not self._is_false_:
+                yield sources
+            return
         # the child provides the values to map, it is not a condition: rows that fail the child's own conditions (a
         # predicate-form term or a sub-query) are not values of it, whether or not false results are wanted from here.
         child_val = self._child_._evaluate__(sources, yield_when_false=False)
